@@ -197,6 +197,11 @@ Definition dstep (rs : list bs) (o : sx) : list bs * sx :=
           | (s', Panic _) => (reg_set rs i s', SA "panic")
           end
         else (rs, sx_err "bad dop ijn")
+    | [SN i; SN n; SB b] =>
+        (* On(n) / Off(n) *)
+        if is "setbit" then
+          let '(s', r) := set_bit (N.to_nat n) b (reg_get rs i) in (reg_set rs i s', out_unit r)
+        else (rs, sx_err "bad dop inb")
     | [SN i; SL op] =>
         if is "on" then let '(s', r) := step (reg_get rs i) (SL op) in (reg_set rs i s', r)
         else (rs, sx_err "bad dop on")
